@@ -730,6 +730,9 @@ def r_kill_tree(e, R):
     enum = [n for n in gr.nodes for c in calls_in(n) if isinstance(c.func, ast.Attribute) and c.func.attr == "check_output"]
     killers = {q for n in func_nodes(fr) if isinstance(n, ast.Call) for q in e.callees_of(n)
                if q != fr.qualname and any(isinstance(x, ast.Call) and norm(x.func) == "os.kill" for x in func_nodes(e.prog.funcs[q]))}
+    own_kill = any(isinstance(x, ast.Call) and norm(x.func) == "os.kill" for x in func_nodes(fr))
+    if own_kill and not killers:
+        killers = {fr.qualname}     # the signal is sent by the recursive function itself (helper written in place)
     if not killers:
         # no callee sends a signal any more: fall back on the helper called with the function's own pid parameter
         killers = {q for n in func_nodes(fr) if isinstance(n, ast.Call) and n.args and isinstance(n.args[0], ast.Name) and n.args[0].id == fr.params[0]
@@ -737,7 +740,10 @@ def r_kill_tree(e, R):
     if len(killers) != 1:
         raise AnalysisError(f"{fr.short}: the helper sending the kill signal is not unique: {sorted(killers)}")
     KILLQ = killers.pop()
-    selfk = [n for n in gr.nodes for c in calls_in(n) if e.callees_of(c) & {KILLQ}]
+    if KILLQ == fr.qualname:
+        selfk = [n for n in gr.nodes for c in calls_in(n) if norm(c.func) == "os.kill"]
+    else:
+        selfk = [n for n in gr.nodes for c in calls_in(n) if e.callees_of(c) & {KILLQ}]
     recs = [n for n in gr.nodes for c in calls_in(n) if e.callees_of(c) & {fr.qualname}]
     R.check(bool(enum) and bool(selfk) and bool(recs) and all(any(gr.dominates(x, k) for x in enum) for k in selfk)
             and not any(gr.path_exists(k, lambda n: n in recs or n in enum) for k in selfk),
@@ -809,7 +815,10 @@ def r_kill_tree(e, R):
                     return is_esrch == isinstance(x.ops[0], ast.Eq)
             return None
         return ev
-    hk = [n for n in gk.nodes if n.kind == "except"]
+    def _handlers_around(g_, pred):
+        """except nodes of the try statements whose body contains a call satisfying pred."""
+        return [n for n in g_.nodes if n.kind == "except" and any(isinstance(x, ast.Call) and pred(x) for s_ in parent(e, n.ast).body for x in ast.walk(s_))]
+    hk = _handlers_around(gk, lambda x: norm(x.func) == "os.kill")
     reraise = lambda n: n.kind == "stmt" and isinstance(n.ast, ast.Raise)
     R.check(bool(hk) and all(h.ast.type is not None and norm(h.ast.type) in ("OSError", "ProcessLookupError", "Exception", "BaseException") for h in hk), "R-KILL-TREE",
             f"{fk.short}: the handler around os.kill catches OSError (ESRCH is an OSError)", fk.short, f"except {[norm(h.ast.type) for h in hk]}",
@@ -830,7 +839,7 @@ def r_kill_tree(e, R):
                     return is_one == isinstance(x.ops[0], ast.Eq)
             return None
         return ev
-    hr = [n for n in gr.nodes if n.kind == "except"]
+    hr = _handlers_around(gr, lambda x: isinstance(x.func, ast.Attribute) and x.func.attr == "check_output")
     R.check(bool(hr) and all(h.ast.type is not None and norm(h.ast.type).split(".")[-1] in ("CalledProcessError", "SubprocessError", "Exception", "BaseException") for h in hr),
             "R-KILL-TREE", f"{fr.short}: the handler around pgrep catches CalledProcessError (exit status 1 = no children)", fr.short,
             f"except {[norm(h.ast.type) for h in hr]}", "pgrep's 'no children' exit status raises out of the tree kill for every leaf process", e.loc(fr, fr.node))
